@@ -36,7 +36,7 @@ def demo():
 meta["confirmed"]["demo_exit_unchanged"] = demo()
 a = sh("git -C %s apply %s/patch.diff" % (wt, dst))
 meta["confirmed"]["patch_applies"] = a.returncode == 0
-t = sh("/tmp/mut/run_tests.sh %s" % wt) if os.path.exists("/tmp/mut/run_tests.sh") else sh("true")
+t = sh("/verif/tools/run_tests.sh %s" % wt)
 meta["confirmed"]["tests"] = t.stdout.strip().split("\n")[-1]
 meta["confirmed"]["demo_exit_patched"] = demo()
 sh("git -C /repo worktree remove --force %s" % wt)
@@ -68,7 +68,7 @@ if ok:
     # evidence files were rewritten by the runs above against the patched tree: regenerate them on the clean tree later
 notes = open(os.path.join(dst, "NOTES.md")).read() if os.path.exists(os.path.join(dst, "NOTES.md")) else ""
 meta["needs_to_manifest"] = notes[:1500]
-meta["what_was_run"] = ["scratch worktree %s (removed)" % wt, build, "/tmp/mut/run_tests.sh", "git -C /repo apply; ./check <id> --tier quick; git -C /repo checkout -- ."]
+meta["what_was_run"] = ["scratch worktree %s (removed)" % wt, build, "/verif/tools/run_tests.sh", "git -C /repo apply; ./check <id> --tier quick; git -C /repo checkout -- ."]
 json.dump(meta, open(os.path.join(dst, "meta.json"), "w"), indent=1)
 print(json.dumps({k: meta[k] for k in ("name", "property", "confirmed", "kept")}, indent=1))
 for c, d in meta["detected_by"].items():
